@@ -43,6 +43,8 @@ use crate::{
 mod path_state;
 mod path_watcher;
 mod remote_info;
+#[cfg(iroh_verif)]
+pub(crate) use self::path_state::verif_hooks as verif_path_state;
 
 /// How often to attempt holepunching.
 ///
@@ -168,6 +170,9 @@ struct State {
 
     /// The path selector used to pick the preferred path among the candidates.
     path_selector: Arc<dyn PathSelector>,
+    /// Instance number of this actor (verification hook: lifecycle events).
+    #[cfg(iroh_verif)]
+    verif_inst: u64,
 }
 
 impl RemoteStateActor {
@@ -201,6 +206,8 @@ impl RemoteStateActor {
                 pending_open_paths: VecDeque::new(),
                 address_lookup_stream: None,
                 path_selector,
+                #[cfg(iroh_verif)]
+                verif_inst: verif_hooks::next_inst(),
             },
         }
     }
@@ -214,6 +221,8 @@ impl RemoteStateActor {
     ) -> mpsc::Sender<RemoteStateMessage> {
         let (tx, rx) = mpsc::channel(16);
         let endpoint_id = self.state.endpoint_id;
+        #[cfg(iroh_verif)]
+        verif_hooks::lifecycle("rm.start", self.state.verif_inst, &endpoint_id, initial_msgs.len());
 
         // Ideally we'd use the endpoint span as parent.  We'd have to plug that span into
         // here somehow.  Instead we have no parent and explicitly set the me attribute.  If
@@ -323,6 +332,8 @@ impl RemoteStateActor {
                 _ = &mut idle_timeout => {
                     if self.is_idle(&inbox) {
                         trace!("idle timeout expired and still idle: terminate actor");
+                        #[cfg(iroh_verif)]
+                        verif_hooks::lifecycle("rm.idle_break", self.state.verif_inst, &self.state.endpoint_id, 0);
                         break;
                     } else {
                         // Seems like we weren't really idle, so we reset
@@ -332,11 +343,15 @@ impl RemoteStateActor {
             }
         }
 
+        #[cfg(iroh_verif)]
+        iroh_dns::verif::pause_async("remote_state.before_inbox_close").await;
         inbox.close();
         // There might be a race between checking `inbox.is_empty()` and `inbox.close()`,
         // so we pull out all messages that are left over.
         let mut leftover_msgs = Vec::with_capacity(inbox.len());
         inbox.recv_many(&mut leftover_msgs, inbox.len()).await;
+        #[cfg(iroh_verif)]
+        verif_hooks::lifecycle("rm.closed", self.state.verif_inst, &self.state.endpoint_id, leftover_msgs.len());
 
         trace!("actor terminating");
         (self.state.endpoint_id, leftover_msgs)
@@ -355,6 +370,8 @@ impl RemoteStateActor {
     #[instrument(skip(self))]
     async fn handle_message(&mut self, msg: RemoteStateMessage) {
         // trace!("handling message");
+        #[cfg(iroh_verif)]
+        verif_hooks::handle(self.state.verif_inst, &self.state.endpoint_id, &msg);
         match msg {
             RemoteStateMessage::SendDatagram(sender, transmit) => {
                 self.state.handle_msg_send_datagram(sender, transmit).await;
@@ -1291,6 +1308,8 @@ enum PathsSource<'a> {
     Live(&'a FxHashMap<ConnId, ConnectionState>),
     #[cfg(test)]
     Test(Vec<PathSelectionData<'a>>),
+    #[cfg(iroh_verif)]
+    Verif(Vec<PathSelectionData<'a>>),
 }
 
 #[cfg_attr(not(feature = "unstable-custom-transports"), allow(unreachable_pub))]
@@ -1317,6 +1336,18 @@ impl<'a> PathSelectionContext<'a> {
         }
     }
 
+    /// Constructs a context with synthetic path data (verification hook).
+    #[cfg(iroh_verif)]
+    pub(crate) fn for_verif(
+        current: Option<&'a transports::FourTuple>,
+        paths: Vec<PathSelectionData<'a>>,
+    ) -> Self {
+        Self {
+            current,
+            source: PathsSource::Verif(paths),
+        }
+    }
+
     /// The path currently considered the preferred path to the remote endpoint, if any.
     pub fn current(&self) -> Option<&transports::FourTuple> {
         self.current
@@ -1340,6 +1371,8 @@ impl<'a> PathSelectionContext<'a> {
             ),
             #[cfg(test)]
             PathsSource::Test(paths) => Box::new(paths.iter().cloned()),
+            #[cfg(iroh_verif)]
+            PathsSource::Verif(paths) => Box::new(paths.iter().cloned()),
         }
     }
 }
@@ -1367,6 +1400,8 @@ enum StatsSource {
     /// size in production where only the `Live` variant is ever constructed.
     #[cfg(test)]
     Test(Option<Box<PathStats>>),
+    #[cfg(iroh_verif)]
+    Verif(Option<Box<PathStats>>),
 }
 
 #[cfg_attr(not(feature = "unstable-custom-transports"), allow(unreachable_pub))]
@@ -1397,6 +1432,18 @@ impl<'a> PathSelectionData<'a> {
         }
     }
 
+    /// Constructs a [`PathSelectionData`] with synthetic stats (verification hook).
+    #[cfg(iroh_verif)]
+    pub(crate) fn for_verif(
+        network_path: &'a transports::FourTuple,
+        stats: Option<PathStats>,
+    ) -> Self {
+        Self {
+            network_path,
+            source: StatsSource::Verif(stats.map(Box::new)),
+        }
+    }
+
     /// The network path of the candidate path.
     pub fn network_path(&self) -> &transports::FourTuple {
         self.network_path
@@ -1408,6 +1455,8 @@ impl<'a> PathSelectionData<'a> {
             StatsSource::Live { path_id, conn } => conn.path_stats(*path_id),
             #[cfg(test)]
             StatsSource::Test(stats) => stats.as_deref().copied(),
+            #[cfg(iroh_verif)]
+            StatsSource::Verif(stats) => stats.as_deref().copied(),
         }
     }
 }
@@ -1526,5 +1575,103 @@ async fn maybe_next<S: Stream + Unpin>(maybe_stream: Option<&mut S>) -> Option<O
     match maybe_stream {
         None => None,
         Some(s) => Some(s.next().await),
+    }
+}
+
+/// Verification hooks (model-based conformance checks): actor lifecycle events and a
+/// driver for [`RemoteStateActor::select_path`].  Only compiled with `--cfg iroh_verif`.
+#[cfg(iroh_verif)]
+pub(crate) mod verif_hooks {
+    use std::sync::atomic::{AtomicU64, Ordering};
+
+    use super::*;
+
+    static NEXT_INST: AtomicU64 = AtomicU64::new(1);
+
+    pub(super) fn next_inst() -> u64 {
+        NEXT_INST.fetch_add(1, Ordering::SeqCst)
+    }
+
+    /// Restarts instance numbering (call only while no actor is running).
+    pub(crate) fn reset_inst() {
+        NEXT_INST.store(1, Ordering::SeqCst);
+    }
+
+    pub(super) fn lifecycle(label: &str, inst: u64, remote: &EndpointId, n: usize) {
+        iroh_dns::verif::event(
+            label,
+            &[
+                ("inst", inst.to_string()),
+                ("remote", remote.to_string()),
+                ("n", n.to_string()),
+            ],
+        );
+    }
+
+    pub(super) fn handle(inst: u64, remote: &EndpointId, msg: &RemoteStateMessage) {
+        let (kind, detail) = match msg {
+            RemoteStateMessage::SendDatagram(..) => ("send_datagram", String::new()),
+            RemoteStateMessage::AddConnection(..) => ("add_connection", String::new()),
+            RemoteStateMessage::ResolveRemote(addrs, _) => (
+                "resolve",
+                addrs
+                    .iter()
+                    .map(|a| format!("{a:?}"))
+                    .collect::<Vec<_>>()
+                    .join(","),
+            ),
+            RemoteStateMessage::RemoteInfo(_) => ("remote_info", String::new()),
+            RemoteStateMessage::NetworkChange { is_major } => {
+                ("network_change", is_major.to_string())
+            }
+        };
+        iroh_dns::verif::event(
+            "rm.handle",
+            &[
+                ("inst", inst.to_string()),
+                ("remote", remote.to_string()),
+                ("kind", kind.to_string()),
+                ("detail", detail),
+            ],
+        );
+    }
+
+    #[derive(Debug)]
+    struct FixedSelector(Option<transports::FourTuple>);
+
+    impl PathSelector for FixedSelector {
+        fn select(&self, _ctx: &PathSelectionContext<'_>) -> PathSelection {
+            PathSelection {
+                selection: self.0.clone(),
+            }
+        }
+    }
+
+    /// Runs the real [`RemoteStateActor::select_path`] on an actor without connections whose
+    /// selected path is `current` and whose selector returns `pick` (`None`: the default
+    /// selector, which sees no candidate paths).  Returns the selected path afterwards.
+    pub(crate) fn select_path_step(
+        current: Option<transports::FourTuple>,
+        pick: Option<Option<transports::FourTuple>>,
+    ) -> Option<transports::FourTuple> {
+        let watchable = n0_watcher::Watchable::new(BTreeSet::new());
+        let selector: Arc<dyn PathSelector> = match pick {
+            Some(p) => Arc::new(FixedSelector(p)),
+            None => Arc::new(
+                crate::socket::biased_rtt_path_selector::BiasedRttPathSelector::default(),
+            ),
+        };
+        let mut actor = RemoteStateActor::new(
+            iroh_base::SecretKey::from_bytes(&[7u8; 32]).public(),
+            watchable.watch(),
+            Default::default(),
+            Default::default(),
+            Default::default(),
+            Default::default(),
+            selector,
+        );
+        actor.state.selected_path = current;
+        actor.select_path();
+        actor.state.selected_path.clone()
     }
 }
